@@ -23,6 +23,10 @@ CHECKS = {
    text="For PlainTime::round, PlainDateTime::round (4 dates incl. both range ends), to_ixdtf_string of PlainTime/PlainDateTime/Instant with every fractional-digit precision and minute precision, Instant::round (all 1480 (unit, n) pairs with unit*n dividing 86400e9 ns, odd and even), and until/since of PlainTime, Instant, PlainDateTime with smallestUnit+increment+mode: every admissible increment of every unit, all 9 modes, multiples k in {0,1,2,middle,last,(negative and range-end ones for instants)} and residues {0,1,floor(I/2)-1,floor(I/2),floor(I/2)+1,I-1} - every residue 0..I-1 for I up to 20,000 ns (quick) / 2,000,000 ns (thorough) - mirrored to negative values. Oracle R4: result is floor or ceil multiple, chosen by comparing 2*remainder with the increment and by quotient parity for halfEven; since = -until with negated mode.",
    note="Trusted: R4. Time-of-day rounding follows RoundTime's frame (quantity counted from the start of the enclosing unit, which decides halfEven parity). Negative instants with sign-dependent modes (trunc/expand/halfTrunc/halfExpand) are judged for neighbour membership only: the specification rounds instants as if positive, the property names the direction; both readings are accepted.",
    ref="3/C07"),
+ "C09": dict(cat="model_checking", tech="bounded exhaustive product sweeps on the real code, lock-step against an exact i128 duration model",
+   text="Validity: ALL 10-field combinations of {0, +1, -1, largest value valid on its own, smallest value invalid on its own} (5^10 = 9.77M; thorough 7^10 with the negative limits) through Duration::new, with sign/negated/abs/is_zero on every accepted one; all 4^10 partial records over {absent, 0, 1, -1} through from_partial_duration, DateDuration::new, TimeDuration::new (empty record = TypeError). All ordered pairs of ~190 operand durations (single fields at 1, 23, 24, 59, 60, 999, 1000, 1e6, 40% and 60% of the limit; mixed balanced/unbalanced ones; both signs; 5 with calendar units) for add, subtract, compare (exact sum of totals balanced to the larger default unit, RangeError beyond the limit or with calendar units, commutativity, antisymmetry). round without relativeTo: durations x (largest incl. absent, smallest) x admissible increments x 9 modes against exact rounding of the total; total(unit) against the exact rational within one ulp.",
+   note="Trusted: R5 (exact totals in i128 ns, a day = 24 h). One-ulp allowance on total(). Values outside the alphabets are not covered.",
+   ref="3/C09"),
  "C10": dict(cat="exploration", tech="exhaustive enumeration of the complete finite option matrix on the real code against option-resolution tables (bounded exhaustive exploration, whole space)",
    text="The whole matrix {until, since of PlainDate, PlainTime, PlainDateTime, PlainYearMonth, Instant, ZonedDateTime; round of PlainTime, PlainDateTime, Instant; Duration::round for 4 durations with and without a plain relativeTo; Duration::total; toString options of 5 types; RoundingIncrement construction from u32 and f64} x {largestUnit: absent, auto, 10 units} x {smallestUnit: absent, auto, 10 units} x {29 increments: absent, divisors, non-divisors, unit maxima, 1e9} x {mode: absent + 9}: 1.69M calls. Oracle R9 (GetDifferenceSettings and the round/total/toString option steps): invalid cells must be a RangeError for distinct AND for equal operands (i.e. before computing), valid cells must succeed and give the same result as the fully explicit cell (absent largest = auto = larger of default and smallest; absent increment = 1; absent mode = trunc / halfExpand; since(m) = -until(negate(m))); valid cells whose rounding bracket necessarily leaves the representable range (calendar smallestUnit with increment >= 1e6 years etc.) must be a RangeError.",
    note="Trusted: R9 tables. Cells whose admissibility depends on a rule the property does not name (Duration.round with increment > 1, a date smallestUnit and largestUnit != smallestUnit; calendar units without relativeTo) are executed but unjudged (counted in evidence). Increment set is a covering set, not all 1e9 values.",
